@@ -13,12 +13,14 @@
     spec_bool <bytes>                 CastToBool                  -> 0|1
     op <cfg> <tap> <code> <locktime> <sequence> <version> <stack> <alt> [<items>]
          one opcode through the dispatch table with evaluate's calling convention
-         -> `OK <stack> <alt> <items>` | `REJECT`      (returned False or raised)
+         -> `OK <stack> <alt> <items>` | `REJECT` (returned False or raised) | `REJECT-VALUEERROR`
+            (raised ValueError: Locktime()/Sequence() refused the operand, see N07f)
     spec_op <code> <locktime> <sequence> <version> <stack> <alt>
          -> `OK <stack> <alt>` | `REJECT` | `OVERSIZE` | `UNSUPPORTED`
     eval <cfg> <locktime> <sequence> <version> <cmds>
          Script(cmds).evaluate(tx, 0) with an empty witness
-         -> `ACCEPT|REJECT|FUEL trig=<0|1>`  (trig: a P2SH / witness-program rule fired)
+         -> `ACCEPT|REJECT|FUEL trig=<0|1> ve=<0|1>`  (trig: a P2SH / witness-program rule fired;
+            ve: the run ended with ValueError)
     spec_eval <locktime> <sequence> <version> <cmds>
          -> `ACCEPT|REJECT|OVERSIZE|UNSUPPORTED`
   <cfg> is `r` (repaired: fix-F07a/c/d applied) or `a` (as is).
@@ -87,6 +89,7 @@ def handle : List String → String
       match Interp.stepOp cfg env st code with
       | .ok st' => pure s!"OK {fmtStack st'.stack} {fmtStack st'.alt} {fmtCmds st'.cmds}"
       | .error (.err .unmodelled) => none
+      | .error (.err .valueError) => pure "REJECT-VALUEERROR"
       | .error _ => pure REJECT
   | "spec_op" :: code :: lt :: seq :: ver :: toks => optS do
       let code ← parseNat code
@@ -109,11 +112,12 @@ def handle : List String → String
       let (out, trig) := Interp.runTrig cfg env (fuelFor cmds) st false
       let t := fmtBool trig
       match out with
-      | .accept => pure s!"ACCEPT trig={t}"
-      | .reject => pure s!"REJECT trig={t}"
+      | .accept => pure s!"ACCEPT trig={t} ve=0"
+      | .reject => pure s!"REJECT trig={t} ve=0"
       | .err .unmodelled => none
-      | .err _ => pure s!"REJECT trig={t}"
-      | .outOfFuel => pure s!"FUEL trig={t}"
+      | .err .valueError => pure s!"REJECT trig={t} ve=1"
+      | .err _ => pure s!"REJECT trig={t} ve=0"
+      | .outOfFuel => pure s!"FUEL trig={t} ve=0"
   | "spec_eval" :: lt :: seq :: ver :: toks => optS do
       let ctx := mkCtx (← parseNat lt) (← parseNat seq) (← parseNat ver)
       let (cmds, toks) ← parseCounted oneCmd toks
